@@ -18,8 +18,9 @@ SUPPORTS = {
         'blobs': [(0, 0), (0, 1), (1, 0), (4, 4), (4, 5), (3, 5), (3, 4)]}, 'kmax': 4},
 }
 SUPPORTS['quick'] = dict(SUPPORTS['thorough'], kmax=3)
-CHAINS = ['one', 'two_mono', 'two_seg']
-PROPS = [dict(shape=(5, 5), prop_shape=None, oversample=2), dict(shape=(6, 5), prop_shape=(3, 4), oversample=1)]
+CHAINS = ['one', 'two_mono', 'two_seg', 'tilt_chain', 'blocktilt']
+PROPS = [dict(shape=(5, 5), prop_shape=None, oversample=2), dict(shape=(6, 5), prop_shape=(3, 4), oversample=1),
+         dict(shape=(7, 7), prop_shape=(2, 2), oversample=1)]
 
 
 def partitions(n, kmax):
@@ -68,11 +69,24 @@ def build_chain(tier, cfg, seed, segmented):
     shape, pix, union, amp, opd = arrays(tier, cfg['support'], seed)
     rgs = cfg['rgs']
     mask = seg_mask(shape, pix, rgs) if segmented and max(rgs) > 0 else union
+    if cfg['chain'] == 'blocktilt':
+        # every block carries its own tilt, displacing its image chip by [1, 0, 2, 3][block] samples: with the 2x2 propagation
+        # window of PROPS[2] the chips overlap as a chain whose centre chip is listed first
+        rr = np.arange(shape[0])[:, None] - shape[0] // 2
+        full = seg_mask(shape, pix, rgs)
+        for k in range(full.shape[0]):
+            opd = opd + full[k] * ([1, 0, 2, 3][k] * op.DU / Z) * rr * DX
     p1 = lentil.Pupil(amplitude=amp.copy(), opd=opd.copy(), mask=np.array(mask, copy=True), pixelscale=DX, focal_length=Z)
     if cfg['fit']:
         p1 = p1.fit_tilt()
+    if cfg['chain'] == 'tilt_chain':
+        # the wavefront arrives with tilt metadata, passes the (segmented) pupil and then one more Tilt plane:
+        # every Field must carry each tilt exactly once, however the aperture is split
+        t1 = (0.9 * op.DU / Z, -0.6 * op.DU / Z)
+        t2 = (-1.7 * op.DU / Z, 1.2 * op.DU / Z)
+        return lentil.Wavefront(WL, tilt=list(t1)) * p1 * lentil.Tilt(x=t2[0], y=t2[1])
     w = lentil.Wavefront(WL) * p1
-    if cfg['chain'] != 'one':
+    if cfg['chain'] not in ('one', 'blocktilt'):
         amp2 = rm.generic_real(shape, seed, tag=53, lo=0.5, hi=1.0)
         opd2 = rm.generic_real(shape, seed, tag=54, lo=-0.1, hi=0.1) * WL
         # second aperture: everything except the first support pixel and one extra corner
@@ -100,7 +114,7 @@ def model_field(tier, cfg, seed, drop_singletons=False):
             members = [p for p, bb in zip(pix, rgs) if bb == b]
             if len(members) == 1 and tuple(members[0]) != (shape[0] // 2, shape[1] // 2) and max(rgs) > 0:
                 f[members[0]] = 0
-    if cfg['chain'] != 'one':
+    if cfg['chain'] not in ('one', 'tilt_chain', 'blocktilt'):
         amp2 = rm.generic_real(shape, seed, tag=53, lo=0.5, hi=1.0)
         opd2 = rm.generic_real(shape, seed, tag=54, lo=-0.1, hi=0.1) * WL
         m2 = np.ones(shape); m2[pix[0]] = 0; m2[-1, 0] = 0
@@ -174,7 +188,7 @@ def chk_chain(case, acc, seed):
             acc.violation(f'{nm}:pupil-intensity', case, 'intensity != |field|^2 on the pupil plane')
     # 2. after propagation
     for k, pk in enumerate(PROPS):
-        du = op.DU2 if k else op.DU
+        du = op.DU2 if k == 1 else op.DU
         try:
             os_ = lentil.propagate_dft(wseg, du, **pk)
             om = lentil.propagate_dft(wmono, du, **pk)
@@ -190,7 +204,7 @@ def chk_chain(case, acc, seed):
         if bad_pupil:
             continue
         nseg_fields = len(wseg.data)
-        if cfg['fit']:
+        if cfg['fit'] or cfg['chain'] == 'tilt_chain':
             region = (cs == nseg_fields) & (cm == len(wmono.data))
         else:
             region = np.ones(vs.shape, dtype=bool)
@@ -205,7 +219,7 @@ def chk_chain(case, acc, seed):
             if rm.maxerr(Is[region], Im[region]) > tol * (1 + np.max(np.abs(vm))):
                 acc.violation(f'segmented:intensity:{cfg["chain"]}:{"fit" if cfg["fit"] else "nofit"}', dict(case, prop=k),
                               f'intensity differs between segmented and monolithic description by {rm.maxerr(Is[region], Im[region]):.3e}')
-            if not cfg['fit']:
+            if not cfg['fit'] and cfg['chain'] != 'tilt_chain':
                 shape_out = (pk['shape'][0] * pk['oversample'], pk['shape'][1] * pk['oversample'])
                 alpha = op.alpha_exact(DX, du, WL, Z, pk['oversample'])
                 ref = op.RefPlane(fmod, alpha, max(shape_out) // 2 + 2).on_grid(shape_out)
@@ -269,7 +283,7 @@ def t_support(arg, acc):
     for rgs in parts:
         acc.states += 1
         for chain in CHAINS:
-            for fit in (False, True):
+            for fit in ((True,) if chain == 'blocktilt' else (False, True)):
                 acc.transitions += 1
                 chk_chain({'kind': 'chain', 'tier': tier, 'cfg': {'support': name, 'rgs': rgs, 'chain': chain, 'fit': fit}}, acc, seed)
         acc.transitions += 1
